@@ -180,7 +180,9 @@ def _gen_rejects(rng, seed, tier):
 
 
 def _gen_null(rng, seed, tier):
-    which = rng.choice(["zeroL", "zeroL", "gated", "visc", "visc", "M0", "M0"])
+    which = rng.choice(["zeroL", "zeroL", "gated", "visc", "visc", "M0", "M0", "M0_late"])
+    if which == "M0_late":
+        return _gen_null_late(rng, seed, tier)
     kw = {}
     if which == "zeroL":
         kw["flow_families"] = ["zero"]
@@ -223,6 +225,27 @@ def _gen_null(rng, seed, tier):
             op["null"] = which
     return {"property": PROPERTY, "engine": "world", "seed": seed, "mode": "null:" + which,
             "world": world, "ops": ops}
+
+
+def _gen_null_late(rng, seed, tier):
+    """The boundary mobility is switched to zero part-way through a history, by rewriting
+    the params dict in place (as a driver script would): from then on volume fractions must
+    stay unchanged under any flow."""
+    world = S.gen_world(rng, regimes=[G.R_MDISL] * 3 + [G.R_YIELD], n_choices=[2, 3, 4, 8, 16, 32])
+    for p in world["paramsets"]:
+        if p["gbm_mobility"] == 0.0:
+            p["gbm_mobility"] = rng.choice([50.0, 125.0, 200.0])
+    ops = S.gen_history_ops(rng, world, total=rng.choice([0.5, 1.0, 2.0]), n_max=rng.choice([3, 6, 10]))
+    cut = rng.randint(1, max(1, len(ops) - 1))
+    out = ops[:cut]
+    for j in range(len(world["paramsets"])):
+        out.append({"op": "set_param", "params": j, "key": "gbm_mobility", "value": 0.0})
+    for op in ops[cut:]:
+        o = dict(op)
+        o["null"] = "M0"
+        out.append(o)
+    return {"property": PROPERTY, "engine": "world", "seed": seed, "mode": "null:M0_late",
+            "world": world, "ops": out}
 
 
 # --------------------------------------------------------------------------- oracle
@@ -363,6 +386,9 @@ class C07Monitor:
                 mrec.sync_ref()
 
     def after_op(self, world, i, op, rec):
+        if rec["op"] == "set_param":
+            self.inc("params_rewritten_in_place")
+            return
         if rec["op"] == "update_all":
             self._bulk(world, i, op, rec)
             return
@@ -569,7 +595,7 @@ ASSUMPTIONS = [
     "mismatched (phase, fabric) pairs are only required to be rejected in dislocation-type regimes, where the fabric is used",
     "scipy LSODA trusted as a black box",
 ]
-PROBES = ["rejections_observed.zeroL", "rejections_observed.rotation"] + \
+PROBES = ["params_rewritten_in_place", "rejections_observed.zeroL", "rejections_observed.rotation"] + \
          [f"fault_fired_in_solver_loop.{k}" for k in
           ("L_raises", "position_raises", "regime_raises", "solver_failed", "params_key_missing",
            "regime_unsupported", "L_malformed", "L_nonfinite")] + \
